@@ -173,8 +173,8 @@ CLAIMED = {
         text="Lean 4 theorems over the reals: Cartesian→polar→Cartesian is the identity with arctan2(x,y)=arg(y+xi), zero angle up, "
              "positive to the right; index_coords origin/axes incl. negative origins; sample positions of the polar reprojection; "
              "int2D = 2πr·avg2D and int3D = 4πr²·avg3D for any polar image; toPES conserves the trapezoid integral on a uniform "
-             "grid for profiles vanishing at both ends; circularize with a constant correction samples every pixel at itself. "
-             "Tie: numpy coordinate functions, the four radial_intensity kinds on a stubbed polar image and toPES vs the model. "
+             "grid for profiles vanishing at both ends, with every option (repeller voltage, zoom, photon energy); circularize with a constant correction samples every pixel at itself. "
+             "Tie: numpy coordinate functions, the four radial_intensity kinds on a stubbed polar image and toPES (with its options) vs the model. "
              "Oracle: the clauses on random inputs; recorded resampler positions; quadrature-level clauses with tolerances.",
         note="Trusted: Lean kernel + standard axioms; scipy map_coordinates outside the model; isotropic-profile / total-conservation "
              "clauses hold to quadrature accuracy (measured). Known finding F20 (circularize border pixels, ref_angle=None).",
@@ -250,7 +250,10 @@ CLAIMED = {
              "projection of every piecewise-constant source exactly at every size (through C09's operator = Abel integral theorems); an "
              "a-priori envelope ‖T_i‖₁·L·(n−½) for inverting the true projection of any L-Lipschitz source with the degree-0 basis; rBasex's "
              "triangular solve recovers exactly the coefficients of any radially piecewise-linear distribution of any angular order from "
-             "its true projection, at every Rmax (with C09Rbasex / C03Bases). "
+             "its true projection, at every Rmax (with C09Rbasex / C03Bases); the two-point and three-point operators applied to the samples "
+             "of a projection return, at every pixel i ≥ 1 and every size, the textbook inverse Abel integral −(1/π)∫ P′(x) dx/√(x² − i²) of the "
+             "piecewise-linear / local quadratic interpolant of the samples — so they are exact whenever the projection is such an interpolant "
+             "(C01Dasch, from C09TwoPoint / C09ThreePoint). "
              "Tie: Lean operator models vs the implementation's arrays. Oracle independent of PyAbel: closed-form Abel pairs and "
              "Gauss–Legendre line-of-sight projections for every method x documented option x family x size x dr x rows; errors must "
              "stay within 2x the frozen pinned-tree envelope, below half the peak, and not grow under refinement.",
